@@ -78,12 +78,12 @@ func (e *csvEncoder) createChildRow(child *CandidateNode, headers []*CandidateNo
 func (e *csvEncoder) encodeObjects(csvWriter *csv.Writer, content []*CandidateNode) error {
 	headers, err := e.extractHeader(content[0])
 	if err != nil {
-		return nil
+		return err
 	}
 
 	err = e.encodeRow(csvWriter, headers)
 	if err != nil {
-		return nil
+		return err
 	}
 
 	for i, child := range content {
@@ -114,14 +114,18 @@ func (e *csvEncoder) Encode(writer io.Writer, node *CandidateNode) error {
 	} else if len(node.Content) == 0 {
 		return nil
 	}
+
+	var err error
 	if node.Content[0].Kind == ScalarNode {
-		return e.encodeRow(csvWriter, node.Content)
+		err = e.encodeRow(csvWriter, node.Content)
+	} else if node.Content[0].Kind == MappingNode {
+		err = e.encodeObjects(csvWriter, node.Content)
+	} else {
+		err = e.encodeArrays(csvWriter, node.Content)
 	}
-
-	if node.Content[0].Kind == MappingNode {
-		return e.encodeObjects(csvWriter, node.Content)
+	if err != nil {
+		return err
 	}
-
-	return e.encodeArrays(csvWriter, node.Content)
-
+	csvWriter.Flush()
+	return csvWriter.Error()
 }
